@@ -185,7 +185,7 @@ Definition dc_closed_window (N d nseg : Z) : option (list Z) :=
   let last_pts_idx := u32 (nseg * u32 (d - 1)) in
   let left_over := u32 (N - 1 - last_pts_idx) in
   let cnt := u32 (d - left_over - 1) in
-  if Z.ltb 1000000 cnt then None
+  if Z.ltb 2147483648 cnt then None
   else Some (zseq last_pts_idx (Z.to_nat (N - last_pts_idx)) ++ zseq 0 (Z.to_nat cnt)).
 
 Inductive dc_result :=
